@@ -5,8 +5,10 @@ import (
 	"bytes"
 	"encoding/json"
 	"fmt"
+	"os"
 	"sort"
 	"strings"
+	"time"
 
 	"golang.org/x/mod/module"
 	"golang.org/x/mod/sumdb"
@@ -16,6 +18,8 @@ import (
 	"verif/internal/fw"
 	"verif/internal/opsenv"
 	"verif/internal/world"
+	"verif/props/c14"
+	"verif/props/c14/scen"
 )
 
 type stepT struct {
@@ -545,6 +549,20 @@ func Run(r *fw.Run) {
 		r.Merge(l)
 	})
 	r.Sample(caseT{P: 2, A: 4, B: 4, H: 2, Stored: 4, Cache: "cold", Steps: []stepT{{Rec: 0, Server: "B"}, {Rec: 2, Server: "A", Restart: true}}})
+
+	// schedules: two clients sharing one compare-and-swap configuration, fed by forked servers or by
+	// one server at different sizes, under the controlled scheduler (engine E4, see C14)
+	if os.Getenv("VERIF_BIN") != "" {
+		cfgs := []c14.Config{{Gran: "ops", Mode: "deviations", Bound: 2, Only: nil}, {Gran: "sync", Mode: "deviations", Bound: 1, Only: nil}, {Gran: "ops", Mode: "preemptions", Bound: 1, Only: c14.Small}}
+		per, tot := 20*time.Second, 30*time.Second
+		if r.Thorough() {
+			cfgs = []c14.Config{{Gran: "ops", Mode: "deviations", Bound: 3, Only: nil}, {Gran: "sync", Mode: "deviations", Bound: 2, Only: nil}, {Gran: "ops", Mode: "preemptions", Bound: 2, Only: c14.Small}}
+			per, tot = 10*time.Minute, 12*time.Minute
+		}
+		r.Bounds["schedule_scenarios"] = "fork-two-clients, fork-two-clients-empty-config, same-log-different-sizes"
+		r.Bounds["schedule_configurations"] = fmt.Sprint(cfgs)
+		c14.RunSchedules(r, scen.ForkScenarios(), cfgs, per, tot)
+	}
 }
 
 func Replay(r *fw.Run, raw json.RawMessage) {
